@@ -86,7 +86,8 @@ GlobCmd(ed, sd, t, j) ==
     ELSE IF k = 4 THEN [k |-> "pu", loc |-> <<>>, reg |-> Elem(sd, t, j + 1, RegPool)]
     ELSE IF k = 5 THEN [k |-> "a", loc |-> <<>>, txt |-> GenText(sd, t, j + 1)]
     ELSE IF k = 6 THEN [k |-> "i", loc |-> <<>>, txt |-> GenText(sd, t, j + 1)]
-    ELSE IF k = 7 THEN [k |-> "c", loc |-> <<>>, txt |-> GenText(sd, t, j + 1)]
+    (* c of the visited line, or of the next one: the typed text takes the place of a line still to be visited *)
+    ELSE IF k = 7 THEN [k |-> "c", loc |-> IF Pick(sd, t, j + 4, 2) = 0 THEN <<>> ELSE RelLoc(1), txt |-> GenText(sd, t, j + 1)]
     ELSE IF k = 8 THEN [k |-> "d", loc |-> RelLoc(-1), reg |-> 0]
     ELSE IF k = 9 THEN [k |-> "d", loc |-> RelLoc(1), reg |-> 0]
     ELSE IF k = 10 THEN [k |-> "p", loc |-> RelLoc(IF Pick(sd, t, j + 1, 2) = 0 THEN 1 ELSE -1)]
@@ -182,6 +183,10 @@ GenLineCmds(ed, sd, t) ==
              fwd == IF Pick(sd, t, 1, 2) = 0 THEN [k |-> "pu", loc |-> <<>>, reg |-> 0] ELSE [k |-> "p", loc |-> RelLoc(1)]
          IN <<[k |-> "g", loc |-> <<[nm(2) EXCEPT !.sep = ","], [a |-> [b |-> "last", n |-> 0, m |-> 0, re |-> <<>>, offs |-> <<>>], sep |-> ""]>>,
                re |-> <<46>>, cmds |-> <<[k |-> "s", loc |-> <<>>, re |-> <<36>>, rep |-> <<33>>, g |-> FALSE], back, fwd>>]>>
+    (* ... and a global that changes the line after the visited one to a text that matches: the typed line is not visited *)
+    ELSE IF Profile = "glob" /\ t % 10 = 7 /\ NLines(ed) >= 3
+    THEN <<[k |-> "g", loc |-> <<>>, re |-> <<46>>, cmds |-> <<[k |-> "s", loc |-> <<>>, re |-> <<36>>, rep |-> <<33>>, g |-> FALSE],
+                                                              [k |-> "c", loc |-> RelLoc(1), txt |-> << <<97, 110>> >>]>>]>>
     ELSE
     (* "rs" and "!" take the rest of their line; the commands of @ are a command line of their own (own undo step) *)
     (* after u / redo the rows of the marks are not constrained: no second command (it may address a mark) on that line *)
